@@ -148,7 +148,7 @@ func genD(t *rapid.T) CaseA {
 		pred[name] = "smb" // whether an HTTP listener survived is not known here: never draw an unplanned 5 s removal
 	}
 	ops = append(ops, genOps(t, rapid.IntRange(0, 2).Draw(t, "n2"), pred, &none, names)...)
-	return CaseA{Base: base, Ops: ops}
+	return CaseA{Base: base, Ops: withScale(t, base, ops)}
 }
 
 // classifySchedule: labels and the fingerprint part of a schedule.
